@@ -60,6 +60,7 @@ type FuncContract struct {
 	Line     int
 	File     string
 	NoPanicOnly bool
+	Nilable  []string
 }
 
 // AtCall pins the arguments of a (havocked) call inside the function body:
@@ -103,7 +104,7 @@ type ContractFile struct {
 var clauseKeywords = map[string]bool{
 	"serves": true, "requires": true, "ensures": true, "modifies": true, "nowrap": true,
 	"arith": true, "loop": true, "invariant": true, "ghost": true, "trusted": true,
-	"atcall": true, "lemma": true, "opaque": true, "loopmodifies": true, "nopanic": true,
+	"atcall": true, "lemma": true, "opaque": true, "loopmodifies": true, "nopanic": true, "nilable": true,
 }
 
 func ParseContractFile(path, pkgPath string) (*ContractFile, error) {
@@ -242,6 +243,9 @@ func ParseContractText(path, pkgPath, text string) (*ContractFile, error) {
 				contTarget = nil
 			case "nowrap":
 				curF.NoWrap = true
+				contTarget = nil
+			case "nilable":
+				curF.Nilable = append(curF.Nilable, strings.Fields(strings.ReplaceAll(rest, ",", " "))...)
 				contTarget = nil
 			case "nopanic":
 				curF.NoPanicOnly = true
